@@ -55,7 +55,7 @@ def gen_pair(r):
         if nm not in [x["name"] for x in U["kids"]]:
             k["name"] = nm
     # a node and a SIBLING whose name merely starts with the node's name (scan / scan2), somewhere in the common universe
-    if r.random() < 0.3:
+    if r.random() < 0.4:
         holders = []
         def collect(n):
             if n["kids"]:
@@ -66,7 +66,8 @@ def gen_pair(r):
         if holders:
             h = r.choice(holders)
             k = r.choice(h["kids"])
-            nm = k["name"] + r.choice(["2", "_b", "x"])
+            # ... or the writer's SCRATCH name for that node (`_tmp_<name>`), as an ordinary sibling
+            nm = r.choice([k["name"] + "2", k["name"] + "_b", k["name"] + "x", "_tmp_" + k["name"], "_tmp_" + k["name"]])
             res = gen.reserved_names(h) if h["cls"] != "Root" else {"metadatabundle"}
             if nm not in [x["name"] for x in h["kids"]] and nm not in res:
                 cls = r.choice(gen.CLASSES)
